@@ -410,6 +410,11 @@ def mon_c08(c, r):
         # the InterruptibilityState the call runs on was interrupted during the first call of the history
         return ('functions %s started by a call on an InterruptibilityState that had already been interrupted (strategy %s)'
                 % (r.starts(), r.cfg.get('strat')))
+    if r.kind == 'call' and r.case.family.startswith('share') and r.prefix not in ('', 'r0.') \
+            and r.cfg.get('strat', '').startswith('pn:') and int(r.cfg['strat'][3:]) >= 1 \
+            and len(r.starts()) > int(r.cfg['strat'][3:]):
+        return ('%d functions started by a call on an InterruptibilityState whose signal was received by an earlier call (strategy %s: at most %s)'
+                % (len(r.starts()), r.cfg['strat'], r.cfg['strat'][3:]))
     if r.kind == 'call' and ('i' in evs or r.sig_at is not None):
         # "functions already started are always completed ... and the call returns"
         stuck = _c04_run(c, r)
